@@ -127,6 +127,59 @@ def build_cuts(names):
     os.utime(out, None)
     return [os.path.join(out, 'cut_%s.so' % n) for n in names]
 
+# ----------------------------------------------------------------------------- generated programs (C01.const)
+def _mix(x):
+    x = (x + 0x9e3779b97f4a7c15) & 0xffffffffffffffff
+    x = ((x ^ (x >> 30)) * 0xbf58476d1ce4e5b9) & 0xffffffffffffffff
+    x = ((x ^ (x >> 27)) * 0x94d049bb133111eb) & 0xffffffffffffffff
+    return x ^ (x >> 31)
+def kprog_constants(seed):
+    MAXF = 0x7FFFFFFFFFFFFFFE; ks = []
+    r = seed * 1000003 + 17
+    for i in range(24):
+        r = _mix(r); cls = i % 6; d = r % 7 - 3
+        if cls == 0: k = MAXF - (r >> 8) % 70000
+        elif cls == 1: k = (1 << 62) + d
+        elif cls == 2: k = (1 << (1 + (r >> 8) % 62)) + d
+        elif cls == 3: k = (r >> 8) % 140001 - 70000
+        elif cls == 4: k = (r >> 1) & 0x7fffffffffffffff
+        else: k = (MAXF + 1) // 2 + d
+        if (r >> 5) & 1: k = -k
+        k = max(-MAXF, min(MAXF, k))
+        if k == 0: k = 1
+        ks.append(k)
+    return ks
+def build_kprog(seed, names):
+    out = os.path.join(cut_dir(), 'k%d' % seed); os.makedirs(out, exist_ok=True)
+    src = os.path.join(out, 'cutk.cc')
+    ks = kprog_constants(seed)
+    lit = lambda v: ('(-9223372036854775807LL-1)' if v == -2**63 else '%dLL' % v)
+    body = ['// generated from VERIF_SEED=%d by verif.py: constant-operand call shapes for C01.const' % seed, '#include "cut_helpers.h"', '#include "cut_api.h"',
+            'struct KEntry { const char* name; int64_t k; int shape; cut_fn fn; };', '#define W extern "C" __attribute__((visibility("default"), noinline)) int64_t']
+    tab = []
+    for i, k in enumerate(ks):
+        K = 'as_fixed(%s)' % lit(k)
+        exprs = ['(F(a) + %s).v' % K, '(%s + F(a)).v' % K, '(F(a) - %s).v' % K, '(%s - F(a)).v' % K, 'h_addeq(a, %s)' % K,
+                 '[](int64_t a_) { fixed_t acc = as_fixed(a_); for (int i = 0; i < 4; ++i) acc += %s; return acc.v; }(a)' % K, '(isnan(F(a) + %s) ? 1 : 0)' % K]
+        for sh, e in enumerate(exprs):
+            body.append('W fk_%d_%d(int64_t a, int64_t, int64_t) { return %s; }' % (i, sh, e))
+            tab.append('{ "fk_%d_%d", %s, %d, &fk_%d_%d }' % (i, sh, lit(k), sh, i, sh))
+    body.append('static const KEntry ktab_[] = {\n  ' + ',\n  '.join(tab) + '\n};')
+    body.append('extern "C" __attribute__((visibility("default"))) const KEntry* cutk_table(int* n) { *n = %d; return ktab_; }' % len(tab))
+    text = '\n'.join(body) + '\n'
+    if not os.path.exists(src) or open(src).read() != text: open(src, 'w').write(text)
+    def one(n):
+        so = os.path.join(out, 'cutk_%s.so' % n)
+        if os.path.exists(so) and os.path.getmtime(so) >= os.path.getmtime(src): return None
+        m = re.match(r'(g\+\+|clang\+\+)-O(\d)-(.*)$', n)
+        cmd = [m.group(1)] + STDS[m.group(3)] + ['-O' + m.group(2), '-fPIC', '-shared', '-fvisibility=hidden', '-w', '-I' + INC, '-I' + os.path.join(ROOT, 'cut'), src, '-o', so + '.tmp']
+        r = run(cmd)
+        if r.returncode: return n + ': ' + r.stdout[-2000:]
+        os.replace(so + '.tmp', so); return None
+    with ThreadPoolExecutor(JOBS) as ex: errs = [e for e in ex.map(one, names) if e]
+    if errs: raise SystemExit('generated program build failed:\n' + '\n'.join(errs))
+    return out
+
 # ----------------------------------------------------------------------------- known findings
 KF_FILE = os.path.join(ROOT, 'known_findings.jsonl')
 def load_known():
@@ -160,8 +213,8 @@ def run_workers(exe, jobs):
             except subprocess.TimeoutExpired: return 124
     with ThreadPoolExecutor(JOBS) as ex: return list(ex.map(one, jobs))
 
-def do_replay(exe, clause, args, sos, kf_txt=None):
-    argv = [exe, 'replay', clause, '--args', ','.join(str(a) for a in args)] + (['--kf', kf_txt] if kf_txt else []) + sos
+def do_replay(exe, clause, args, sos, kf_txt=None, kdir=None):
+    argv = [exe, 'replay', clause, '--args', ','.join(str(a) for a in args)] + (['--kf', kf_txt] if kf_txt else []) + (['--kdir', kdir] if kdir else []) + sos
     r = run(argv)
     return r.returncode, r.stdout
 
@@ -181,6 +234,8 @@ def check(prop, tier):
     need = []
     for f in fams: need += cfgnames[f]
     paths = dict(zip(need, build_cuts(need)))
+    kdir = build_kprog(seed, cfgnames['R']) if any(c.get('kprog') for c in spec['clauses']) else None
+    kclauses = set(c['id'] for c in spec['clauses'] if c.get('kprog'))
     jobs = []; meta = []
     # replay tier: saved failing cases (regress/<prop>.jsonl) are evaluated first by worker 0 of their clause
     pre = {}
@@ -201,6 +256,7 @@ def check(prop, tier):
             out = os.path.join(work, '%s.%d.json' % (c['id'], w))
             argv = [exe, 'run', c['id'], '--tier', tier, '--seed', str(seed), '--worker', str(w), '--nworkers', str(nw), '--n', str(per), '--out', out, '--kf', kf_txt] + sos
             if w == 0 and c['id'] in pre: argv[3:3] = ['--pre', pre[c['id']]]
+            if c.get('kprog'): argv[3:3] = ['--kdir', kdir]
             jobs.append((argv, out + '.log', t.get('timeout', 3600)))
             meta.append((c, w, out, sos))
     # extra engines (fuzz, consteval) are plugged in by checks.py through 'extra'
@@ -228,7 +284,7 @@ def check(prop, tier):
         per_clause[fl['clause']] = per_clause.get(fl['clause'], 0) + 1
         ok3 = True; outp = ''
         for _ in range(3):
-            rc, outp = do_replay(exe, fl['clause'], fl['args'], r['_sos'], kf_txt)
+            rc, outp = do_replay(exe, fl['clause'], fl['args'], r['_sos'], kf_txt, kdir if fl['clause'] in kclauses else None)
             if rc != 1: ok3 = False
         if not ok3:
             harness_errors.append('failure of %s args=%s did not reproduce 3x through replay:\n%s' % (fl['clause'], fl['args'], outp))
@@ -313,7 +369,11 @@ def replay(path):
         return replay_extra(v, dict(build_cuts=build_cuts, exe=build_harness(), repo=REPO, root=ROOT, log=log))
     exe = build_harness()
     sos = build_cuts(v['configs'])
-    rc, out = do_replay(exe, v['clause'], v['args'], sos)
+    kd = None
+    for spec in CHECKS.values():
+        for c in spec['clauses']:
+            if c['id'] == v['clause'] and c.get('kprog'): kd = build_kprog(int(v.get('seed', 1)), v['configs'])
+    rc, out = do_replay(exe, v['clause'], v['args'], sos, None, kd)
     print(out, end='')
     return rc
 
